@@ -327,6 +327,13 @@ func (r *rewriter) selectStmt(n *ast.SelectStmt) ast.Stmt {
 	hd := "false"
 	if hasDefault {
 		hd = "true"
+	} else {
+		// a select whose clauses all end in return (or panic, ...) is a terminating
+		// statement; the switch standing in for it is one only with a default
+		// clause. Select never returns anything but a clause index.
+		sw.Body.List = append(sw.Body.List, &ast.CaseClause{List: nil, Body: []ast.Stmt{
+			&ast.ExprStmt{X: &ast.CallExpr{Fun: ast.NewIdent("panic"), Args: []ast.Expr{&ast.BasicLit{Kind: token.STRING, Value: `"vsync.Select: no such clause"`}}}},
+		}})
 	}
 	if len(lhs) > 0 {
 		sw.Init = &ast.AssignStmt{Lhs: lhs, Tok: token.DEFINE, Rhs: rhs}
